@@ -473,7 +473,7 @@ def notes(rng, big=False, spread=False):
         ref_iv.append([on * unit, (on + dur) * unit])
         ref_p.append(grid_midi(rng, 50, 60) if rng.random() < 0.7 else 55.0)
         ref_v.append(float(rng.randrange(1, 128)))
-    if nr > 1 and rng.random() < (0.1 if spread else 0.3):  # duplicated note
+    if nr > 1 and rng.random() < (0.04 if spread else 0.3):  # duplicated note
         k = rng.randrange(nr)
         ref_iv.append(list(ref_iv[k]))
         ref_p.append(ref_p[k])
@@ -487,7 +487,7 @@ def notes(rng, big=False, spread=False):
     if spread:  # estimates close to their reference note: most pairs match
         d_on, d_off = [0, 0, 1, -1, 2, -2, 3], [0, 0, 1, -1, 2, -3]
         d_pitch = [0, 0, 0, 1, -1, 2, -2, 3, -3, 5, 96]
-        copies = [1, 1, 1, 1, 1, 1, 0, 2]
+        copies = [1] * 14 + [0, 0, 2]
     for k in range(len(ref_iv)):
         for _ in range(rng.choice(copies)):
             on = ref_iv[k][0] / unit + rng.choice(d_on)
